@@ -4,7 +4,7 @@ from harness import worlds
 
 PROP = "C05"
 LEAN_MODULE = "Ztr.Props.C05"
-THEOREMS = []
+THEOREMS = ['Ztr.Proto.run_shape', 'Ztr.Result.runTest_bracket', 'Ztr.Result.C05_bracket', 'Ztr.Result.runTests_between', 'Ztr.Runner.C05_bases_first', 'Ztr.Runner.C05_mirrored', 'Ztr.Runner.C05_outside_untouched']
 RULE = ("worlds whose layers log testSetUp/testTearDown and whose tests log setUp/body/subtests/tearDown/cleanups; all "
         "17 outcome kinds (pass, fail, error, skip by decorator / in setUp / in body / in tearDown / in a subtest, "
         "expected failure, unexpected success, failing subtests, errors in setUp/tearDown/cleanups) in random sequences, "
